@@ -102,7 +102,7 @@ def read_repo(rel):
         return f.read()
 
 
-def mount(rel, dst, rewrites=(), append=(), prepend=""):
+def mount(rel, dst, rewrites=(), append=(), prepend="", subst=None):
     """Copy /repo/<rel> to dst, apply the listed (pattern, replacement, min_hits) rewrites
     (regex, multiline), append the listed harness files.  Returns a record for evidence.
     A rewrite rule that matches fewer than min_hits times makes the run inconclusive."""
@@ -120,7 +120,10 @@ def mount(rel, dst, rewrites=(), append=(), prepend=""):
     for h in append:
         with open(h, "r") as f:
             out += "\n\n// ---- appended by /verif (%s) ----\n" % os.path.relpath(h, VERIF)
-            out += f.read()
+            body = f.read()
+            for a, b in (subst or {}).items():
+                body = body.replace(a, str(b))
+            out += body
         appended.append(os.path.relpath(h, VERIF))
     os.makedirs(os.path.dirname(dst), exist_ok=True)
     with open(dst, "w") as f:
@@ -172,7 +175,7 @@ def function_ranges(rel, names):
 
 # --------------------------------------------------------------------------- running kani
 
-CHECK_RE = re.compile(r"^Check (\d+): (\S+)")
+CHECK_RE = re.compile(r"^Check (\d+): (.*\S)\s*$")
 STATUS_RE = re.compile(r"^\s+- Status: (\S+)")
 DESC_RE = re.compile(r'^\s+- Description: "(.*)"')
 LOC_RE = re.compile(r"^\s+- Location: (.*)")
